@@ -7,7 +7,7 @@ CONFIGS = [('lex_inf', 'rc2'), ('lex_inf', 'z3')]
 WEAKLY = False
 WANT = 'strong'
 RULE = ('strongly consistent bases with independent-layer and D4 shapes over-weighted (several minimum-cardinality falsification sets with different continuations); both back-ends judged by lexicographic comparison of per-layer count vectors on enumerated worlds. Non-trivial = A&B and A&!B both satisfiable; distinct by hash(base, query, back-end).')
-ASSUMPTIONS = ['worlds are enumerated: bases of <= 6 atoms (incl. query atoms outside the signature), <= 8 conditionals, formula depth <= 3', 'reference semantics vf/refmodel.py is the definition quoted in the property (self-tested on textbook instances at start-up)']
+ASSUMPTIONS = ['worlds are enumerated: bases of <= 6 atoms (incl. query atoms outside the signature) and <= 8 conditionals, plus a ~5% share of "wide" bases with 7-8 atoms, 9-13 conditionals or 5-7 layers; formula depth <= 3 (deep equivalent wrappers to depth 9)', 'reference semantics vf/refmodel.py is the definition quoted in the property (self-tested on textbook instances at start-up)']
 TRUSTED = []
 FLOOR = {'quick': 300, 'thorough': 3000}
 BUDGET = {'quick': 90, 'thorough': 1200}
